@@ -2,6 +2,7 @@ CONSTANTS
   Publishers = {"A", "B"}
   Readers = {}
   RemoteReaders = {}
+  LockFreeReaders = {}
   Keys <- KeysSeq
   HasCache = FALSE
   MaxFaults = 0
